@@ -1,5 +1,6 @@
 """C14 — read-only access never alters a file; write requests through it are refused."""
-import os, hashlib
+import os, hashlib, struct
+import numpy as np
 from hypothesis import strategies as st
 from h4verif.exe import Prog, V, Out, OutS, InOut, run, CaseDir, i32s
 from h4verif.runner import CaseResult
@@ -99,6 +100,9 @@ READERS = [
     lambda p: p.call("i", "GRreadlut", V("lut"), Out(768)),
     lambda p: p.call("i", "ANreadann", V("ann"), Out(13), 13),
     lambda p: p.call("i", "ANannlen", V("ann")),
+    lambda p: p.call("i", "SDreaddata", V("s4"), i32s(0), None, i32s(50), Out(100)),
+    lambda p: p.call("i", "SDreaddata", V("s5"), i32s(0), None, i32s(50), Out(100)),
+    lambda p: p.call("i", "SDreaddata", V("s4"), i32s(3000), None, i32s(10), Out(20)),
 ]
 
 
@@ -141,6 +145,16 @@ def run_case(case):
         xp.call("i", "SDstart", "combo.hdf", 3, bind="sd")
         xp.call("i", "SDcreate", V("sd"), "empty", 24, 1, i32s(4), bind="s")
         xp.call("i", "SDendaccess", V("s"))
+        # two datasets whose packed bit stream spans several 4096-byte blocks (n-bit, skipping Huffman)
+        big = (np.arange(8192, dtype=np.int64) * 7919 % 3000).astype("=i2")
+        xp.call("i", "SDcreate", V("sd"), "bign", 22, 1, i32s(8192), bind="s")
+        xp.call("i", "SDsetnbitdataset", V("s"), 11, 12, 0, 0)
+        xp.call("i", "SDwritedata", V("s"), i32s(0), None, i32s(8192), big.tobytes())
+        xp.call("i", "SDendaccess", V("s"))
+        xp.call("i", "SDcreate", V("sd"), "bigh", 22, 1, i32s(8192), bind="s")
+        xp.call("i", "SDsetcompress", V("s"), 3, struct.pack("=i", 2) + bytes(16))
+        xp.call("i", "SDwritedata", V("s"), i32s(0), None, i32s(8192), big.tobytes())
+        xp.call("i", "SDendaccess", V("s"))
         xp.call("i", "SDend", V("sd"))
         xp.call("i", "DFR8addimage", "combo.hdf", bytes((i * 3) & 0xff for i in range(30)), 6, 5, 11)
         rx = run(xp, cwd=d)
@@ -153,10 +167,24 @@ def run_case(case):
         fail = None
         # reference transcript of the logical content
         ref = run(wl.combo_reader("", acc=1), cwd=d)
+
+        def big_reader():
+            q = Prog()
+            q.call("i", "SDstart", "combo.hdf", 1, bind="sd")
+            ls = []
+            for i in (4, 5):
+                q.call("i", "SDselect", V("sd"), i, bind="s")
+                ls.append(q.call("i", "SDreaddata", V("s"), i32s(0), None, i32s(8192), Out(16384)))
+                q.call("i", "SDendaccess", V("s"))
+            q.call("i", "SDend", V("sd"))
+            rq = run(q, cwd=d)
+            return [(rq.res[l].ret, rq.res[l].bufs[0]) if l in rq.res else None for l in ls]
+
+        big_ref = big_reader()
         p = Prog()
         must = []
         p.call("i", "SDstart", "combo.hdf", acc, bind="sd")
-        for i in range(4):
+        for i in range(6):
             p.call("i", "SDselect", V("sd"), i, bind="s%d" % i)
         p.call("i", "SDgetdimid", V("s0"), 0, bind="d0")
         p.call("i", "Hopen", "combo.hdf", acc, 0, bind="f")
@@ -200,7 +228,7 @@ def run_case(case):
         for x in ("aidl", "aidc", "aidx"):
             p.call("i", "Hendaccess", V(x))
         lclose = p.call("i", "Hclose", V("f"))
-        for i in range(4):
+        for i in range(6):
             p.call("i", "SDendaccess", V("s%d" % i))
         lend = p.call("i", "SDend", V("sd"))
         wlog = os.path.join(d, "wlog")
@@ -263,6 +291,9 @@ def run_case(case):
                                     call=line[:80])
                         break
             labels.add("rw_noedit")
+        if fail is None and rr.done and big_reader() != big_ref:
+            fail = dict(kind="content of a multi-block n-bit / skipping-Huffman dataset differs after a session "
+                             "without edits", mode=case["mode"])
         if fail is not None:
             fail["program"] = p.text()[:5000]
             return CaseResult(labels=labels, failure=fail, sample=dict(mode=case["mode"], ops=case["ops"][:20]))
